@@ -172,11 +172,10 @@ int cif_loop_set_category(cif_loop_tp *loop, const UChar *category) {
     cif_container_tp *container = loop->container;
     UChar *category_temp;
 
-    if (category == NULL) {
-        category_temp = NULL;
-    } else if (*category == 0) {
+    if ((category != NULL) && (*category == 0)) {
         return CIF_RESERVED_LOOP;
     } else {
+        /* the scalar loop's category may not be changed, not even to NULL */
         int temp = cif_loop_get_category(loop, &category_temp);
 
         if (temp != CIF_OK) {
@@ -189,9 +188,13 @@ int cif_loop_set_category(cif_loop_tp *loop, const UChar *category) {
             }
         }
 
-        category_temp = cif_u_strdup(category);
-        if (category_temp == NULL) {
-            return CIF_MEMORY_ERROR;
+        if (category == NULL) {
+            category_temp = NULL;
+        } else {
+            category_temp = cif_u_strdup(category);
+            if (category_temp == NULL) {
+                return CIF_MEMORY_ERROR;
+            }
         }
     }
 
